@@ -15,13 +15,14 @@ KEYS = ['a', 'b', 'c', 'd']
 VALS = [0, False, '', [], 1, 2.5, 'x', [1, 2], -3, True, [0]]
 
 
-def gen_shape(rng, depth):
+def gen_shape(rng, depth, top=True):
     if depth == 0 or rng.random() < 0.4:
         return None
     out = {}
-    for k in KEYS:
-        if rng.random() < 0.5:
-            out[k] = gen_shape(rng, depth - 1)
+    # below the top level a variable may itself be called 'time' (only the top-level key is the time vector)
+    for k in KEYS + ([] if top else ['time']):
+        if rng.random() < (0.5 if k != 'time' else 0.25):
+            out[k] = gen_shape(rng, depth - 1, False)
     return out or None
 
 
